@@ -227,6 +227,8 @@ class Tree:
             from . import canon
             canon.align_names({rel: tree for _, _, rel, _, tree, _ in parsed})
             canon.align_params({rel: tree for _, _, rel, _, tree, _ in parsed})
+            from . import canon2
+            canon2.inline_class_constants_tree_wide({rel: tree for _, _, rel, _, tree, _ in parsed}, canon._ref())
             canon.SIGNATURES.clear()
             canon.SIGNATURES.update(canon.signature_table({rel: tree for _, _, rel, _, tree, _ in parsed}))
         for name, path, rel, src, tree, raw in parsed:
